@@ -123,29 +123,44 @@ def case_wrapper(h, N, NW, k, default_k=False):
         def kern(d):
             return 2 * W * sinc_uf(2 * W * d)[0] if d else 2 * W
     else:
-        # replay: the REAL library; its output is captured so that the same claims are evaluated on what C really returns
-        real = M.mtspeclib
-        cap = {}
+        # replay: the REAL library at the case's (N, k) - and, because the solver's taper values cannot be injected into C,
+        # at every admissible NW of a small grid: the claims are evaluated on what C really returns
+        cands = [NW] + [w for w in (1, 1.5, 2, 2.5, 3, 3.5, 4) if w != NW and w < N / 2.0 and (default_k or k <= 2 * w)]
+        if default_k:
+            cands = [NW]
+        for NW_try in cands:
+            _replay_one(h, M, N, NW_try, k, default_k)
+        return
+    _claims(h, N, k, W, out, eig, t, kern)
 
-        def passthrough(n_, k_, lam, npi, tapers, tapsum):
-            real.multitap.restype = None
-            real.multitap(n_, k_, lam, npi, tapers, tapsum)
-            kk, nn = k_.value, n_.value
-            cap['t'] = np.array((ctypes.c_double * (kk * nn)).from_address(tapers.value)).reshape(kk, nn).copy()
-            cap['sum'] = np.array((ctypes.c_double * kk).from_address(tapsum.value)).copy()
-        M.mtspeclib = _FakeLib(passthrough)
-        try:
-            out, eig = M.dpss(N, NW) if default_k else M.dpss(N, NW, k)
-        finally:
-            M.mtspeclib = real
-        if 't' not in cap or cap['t'].shape != (k, N):
-            h.fail("C call arguments", "multitap called with shape %r, expected (%d, %d)" % (cap.get('t', np.zeros(0)).shape, k, N))
-            return
-        t = cap['t']
-        sums = cap['sum']
 
-        def kern(d):
-            return 2 * W * float(np.sinc(2 * W * d)) if d else 2 * W
+def _replay_one(h, M, N, NW, k, default_k):
+    W = float(NW) / N
+    real = M.mtspeclib
+    cap = {}
+
+    def passthrough(n_, k_, lam, npi, tapers, tapsum):
+        real.multitap.restype = None
+        real.multitap(n_, k_, lam, npi, tapers, tapsum)
+        kk, nn = k_.value, n_.value
+        cap['t'] = np.array((ctypes.c_double * (kk * nn)).from_address(tapers.value)).reshape(kk, nn).copy()
+        cap['sum'] = np.array((ctypes.c_double * kk).from_address(tapsum.value)).copy()
+    M.mtspeclib = _FakeLib(passthrough)
+    try:
+        out, eig = M.dpss(N, NW) if default_k else M.dpss(N, NW, k)
+    finally:
+        M.mtspeclib = real
+    if 't' not in cap or cap['t'].shape != (k, N):
+        h.fail("C call arguments", "multitap called with shape %r, expected (%d, %d)" % (cap.get('t', np.zeros(0)).shape, k, N))
+        return
+    t = cap['t']
+
+    def kern(d):
+        return 2 * W * float(np.sinc(2 * W * d)) if d else 2 * W
+    _claims(h, N, k, W, out, eig, t, kern)
+
+
+def _claims(h, N, k, W, out, eig, t, kern):
     if tuple(np.shape(out)) != (N, k) or len(eig) != k:
         h.fail("shape", "tapers %r, eigenvalues %d; expected (%d, %d) and %d" % (tuple(np.shape(out)), len(eig), N, k, k))
         return
